@@ -230,6 +230,8 @@ def pop_case(draw):
         conns.append(c)
     return {"pspec": {"ops": ops, "ntypes": ntypes, "pops": pops, "conns": conns},
             "cfg": {"dt": 0.01, "steps": draw(st.integers(10, 25)),
+                    # delays approximated by chains of ODEs (orders at least dde_approx, plain delays become chains)
+                    "dde_approx": draw(st.sampled_from([0, 0, 0, 0, 3])) if any(c.get("d") is not None for c in conns) else 0,
                     # the judged run is the first translation of the template objects, or follows an earlier one
                     "warmup": draw(st.sampled_from([None, None, None, "run", "run_other_dt", "get_run_func", "run_in_place",
                                                     "run_in_place"]))}}
@@ -241,7 +243,7 @@ class PopArm(Arm):
     min_per_shard = 20
     required_labels = ("matrix", "scalar_weight", "non_square", "heterogeneous_params", "coupling_edge", "delay",
                        "delay+spread", "two_populations", "second_translation:run", "second_translation:get_run_func",
-                       "second_translation:run_in_place", "dynamic_coupling_edge", "delay_spread_zero")
+                       "second_translation:run_in_place", "dynamic_coupling_edge", "delay_spread_zero", "dde_approx")
 
     def strategy(self, ctx):
         return pop_case()
@@ -291,8 +293,11 @@ class PopArm(Arm):
         res.nontrivial = nontriv
         # reference on the explicit network
         ex_spec = expand(ps)
-        if any(e.get("sp") is not None for e in ex_spec["edges"]):
-            rm = RefModel(augment_gamma(ex_spec))
+        dde = int(cfg.get("dde_approx") or 0)
+        if any(e.get("sp") is not None for e in ex_spec["edges"]) or (dde and any(e.get("d") is not None for e in ex_spec["edges"])):
+            rm = RefModel(augment_gamma(ex_spec, dde_approx=dde))
+            lab.add("dde_approx" if dde else "gamma")
+            res.labels = sorted(lab)
         else:
             rm = RefModel(ex_spec)
         ref_all = rm.simulate(steps, dt)[:steps]
@@ -330,7 +335,8 @@ class PopArm(Arm):
             with warnings.catch_warnings():
                 warnings.simplefilter("ignore")
                 df = circ.run(simulation_time=steps * dt, step_size=dt, outputs=dict(outputs), solver="euler",
-                              verbose=False, clear=True, in_place=False, float_precision="float64")
+                              verbose=False, clear=True, in_place=False, float_precision="float64",
+                              **({"dde_approx": dde} if dde else {}))
         except HarnessError:
             raise
         except Exception as e:
